@@ -63,6 +63,7 @@ func checkScale(cs scalekit.Case) scalekit.Verdict {
 		for _, m := range ms.Modules {
 			yang.ToEntry(m).GetErrors()
 		}
+		_ = dump.Modules(ms, dump.Options{Positions: true}) // every read accessor, incl. namespace and module lookups
 	}
 	if err := ms.Parse(files[late].Text, files[late].Name); err != nil {
 		return scalekit.Bad("load-error", "loads", err.Error())
